@@ -127,12 +127,13 @@ type Contracts struct {
 	Preds   map[string]*PredDef
 	Axioms  map[string][]*Clause // per package
 	Lemmas  map[string][]*Clause
+	GlobalInv map[string][]*Clause // pkgpath.name -> invariants
 	Ifaces  map[string]*FuncContract // key: pkg.I.Method
 	Files   []string
 	Nclause int
 }
 
-var keywordRe = regexp.MustCompile(`^(spec|pred|axiom|lemma|type|func|iface|functype|props|atomic|holds|at_call|requires|ensures|ensures_panic|ghost_ensures|modifies|loop|assume|nopanic|maypanic|trusted|pure|params|immutable|guarded_by|ghost|lockinv|extsync|mutators|setup|strings|noinline)\b`)
+var keywordRe = regexp.MustCompile(`^(spec|pred|axiom|lemma|globalinv|type|func|iface|functype|props|atomic|holds|at_call|requires|ensures|ensures_panic|ghost_ensures|modifies|loop|assume|nopanic|maypanic|trusted|pure|params|immutable|guarded_by|ghost|lockinv|extsync|mutators|setup|strings|noinline)\b`)
 
 var labelRe = regexp.MustCompile(`^([A-Za-z_][A-Za-z_0-9]*):([^:]|$)`)
 var propsRe = regexp.MustCompile(`^\{([A-Z0-9, ]+)\}\s*`)
@@ -140,7 +141,7 @@ var propsRe = regexp.MustCompile(`^\{([A-Z0-9, ]+)\}\s*`)
 func NewContracts() *Contracts {
 	return &Contracts{
 		Funcs: map[string]*FuncContract{}, Types: map[string]*TypeContract{}, Specs: map[string]*SpecFunc{},
-		Preds: map[string]*PredDef{}, Axioms: map[string][]*Clause{}, Lemmas: map[string][]*Clause{}, Ifaces: map[string]*FuncContract{},
+		Preds: map[string]*PredDef{}, GlobalInv: map[string][]*Clause{}, Axioms: map[string][]*Clause{}, Lemmas: map[string][]*Clause{}, Ifaces: map[string]*FuncContract{},
 	}
 }
 
@@ -236,6 +237,16 @@ func (cs *Contracts) LoadContractFile(path, pkg string) error {
 				return fail(l, "%v", err)
 			}
 			cs.Preds[sf.Name] = &PredDef{Pkg: pkg, Name: sf.Name, Params: sf.Params, Body: e, Src: body}
+			curF, curT = nil, nil
+		case "globalinv":
+			c, err := mkClause(kw, rest, l)
+			if err != nil {
+				return err
+			}
+			if c.Label == "" {
+				return fail(l, "globalinv NAME: EXPR")
+			}
+			cs.GlobalInv[pkg+"."+c.Label] = append(cs.GlobalInv[pkg+"."+c.Label], c)
 			curF, curT = nil, nil
 		case "axiom", "lemma":
 			c, err := mkClause(kw, rest, l)
